@@ -186,14 +186,14 @@ func stressDag(r *hx.Run, rng *hx.Rng, sub uint64, g, iters, nEnt int) {
 	// misusers (in two of three runs): goroutines that unlock what is not held, concurrently with the correct users,
 	// and recover the panic.  Unlock(e) / RUnlock(x, e) with e never registered (x = an entity the others are using:
 	// the lookup must fail before anything of x is touched), and once RLock(p); Unlock(p) on a private entity p (wrong
-	// mode: p's mutex stays frozen, its registration stays).  The correct users must not notice any of it.
+	// mode: registration and read lock stay, p's mutex stays usable — the RUnlock(p) that follows must go through).  The
+	// correct users must not notice any of it.
 	misusers := rng.Intn(3)
 	frozen := 0
 	for i := 0; i < misusers; i++ {
 		wg.Add(1)
 		grng, _ := rng.Fork()
 		private := nEnt + 10 + i
-		frozen++
 		go func() {
 			defer wg.Done()
 			misuse := func(what string, call func()) {
@@ -215,6 +215,10 @@ func stressDag(r *hx.Run, rng *hx.Rng, sub uint64, g, iters, nEnt int) {
 				if k == iters/8 {
 					d.RLock(private)
 					misuse("Unlock(read-locked)", func() { d.Unlock(private) })
+					if p := hx.Safely(func() { d.RUnlock(private) }); p != "" {
+						r.Fail("unexpected-panic", "DAGMutex: the holder's own RUnlock after a recovered wrong-mode Unlock panicked: "+p,
+							sig("api", "DAGMutex", "oracle", "stress-panic-after-misuse"))
+					}
 				}
 				dwell(grng)
 			}
@@ -223,15 +227,8 @@ func stressDag(r *hx.Run, rng *hx.Rng, sub uint64, g, iters, nEnt int) {
 	r.Count(fmt.Sprintf("dagstress-misusers:%d", misusers))
 	if waitOrStall(r, &wg, "DAGMutex") {
 		w := &dagWorld{d: d, nEnt: nEnt}
-		// what is left: the private entities of the misusers (registration and read lock in place, mutex frozen)
-		left := 0
-		for i := 0; i < misusers; i++ {
-			if c, _ := w.counts().Get(nEnt + 10 + i); c == 1 && w.mutexes().Has(nEnt+10+i) {
-				left++
-			}
-		}
-		if o := w.obs(); strings.ContainsAny(strings.TrimSpace(o), "123456789") || w.mutexes().Size() != frozen || w.counts().Size() != frozen || left != frozen {
-			r.Fail("registry", fmt.Sprintf("after the stress run the DAGMutex registry is not what the calls account for (%d misusers each left one read-locked private entity): %s, %d mutexes, %d counters",
+		if o := w.obs(); strings.ContainsAny(strings.TrimSpace(o), "123456789") || w.mutexes().Size() != frozen || w.counts().Size() != frozen {
+			r.Fail("registry", fmt.Sprintf("after the stress run (%d misusers) the DAGMutex still has registered entities: %s, %d mutexes, %d counters",
 				misusers, o, w.mutexes().Size(), w.counts().Size()), sig("api", "DAGMutex", "oracle", "registry-not-empty"))
 		}
 	}
